@@ -1126,6 +1126,9 @@ class Interp:
             i, tag = lams[0][1], lams[0][2]
             inner = [self.elem(a, i) if (a[0] == "lam" or self.shares_axis(a, tag)) else a for a in args]
             return ("lam", i, tag, self.pointwise(name, inner))
+        if name in ("maximum", "minimum") and len(args) == 2 and not any(self.axes_of(a) for a in args):
+            # of two scalars: the same value as max / min over the two-element literal [a, b]
+            return ("app", name[:3] + "_of", tuple(sorted(args, key=repr)))
         return ("app", name, tuple(args))
 
     def dot(self, x, y):
@@ -1555,6 +1558,15 @@ def _p_tile(I, args, kw, node):
     return ("app", "np.tile", (x, reps))
 
 
+def _p_product(I, args, kw, node):
+    # itertools.product(X, repeat=n) is itertools.product(*[X for _ in range(n)])
+    if len(args) == 1 and set(kw) == {"repeat"} and args[0][0] != "star":
+        d = fresh("dim")
+        return ("app", "itertools.product", (("star", ("app", "listcomp", (kw["repeat"], ("lam", d, "dim", args[0])))),))
+    extra = tuple(("kw", k, v) for k, v in sorted(kw.items()))
+    return ("app", "itertools.product", tuple(args) + extra)
+
+
 def _p_reshape(I, args, kw, node):
     dims = list(args[1:])
     if len(dims) == 1 and dims[0][0] == "tuple":
@@ -1621,6 +1633,7 @@ PRIMS = {
     "np.stack": _p_stack("stack"),
     "np.reshape": _p_reshape,
     "np.tile": _p_tile,
+    "itertools.product": _p_product,
     "random.split": _p_split,
     "random.permutation": _p_permutation,
 }
